@@ -453,6 +453,20 @@ func (x *ctx) model(st *state, fr *frame, key string, callee *ssa.Function, args
 		return x.ret1(st, scalar(r)), true
 	case "time.Duration.Nanoseconds":
 		return x.ret1(st, args[0]), true
+	case "encoding/gob.Decoder.Decode":
+		// decoding stores an arbitrary value into the target (wire-format fidelity is not modelled) or fails
+		x.assumed["encoding/gob: Decode stores an arbitrary value or returns an error; Encode returns an arbitrary error"] = true
+		if len(args) == 2 {
+			tgt := args[1]
+			switch {
+			case tgt.ptr != nil && tgt.ptr.cell > 0:
+				st.cells[tgt.ptr.cell] = x.freshVal("decoded", x.cellRootType[tgt.ptr.cell])
+			case tgt.t.s != "" && x.lastAllocType[tgt.t.s] != nil:
+				t := x.lastAllocType[tgt.t.s]
+				x.writeHeap(st, &loc{base: tgt.t, key: structName(t), typ: t}, structName(t), t, x.freshVal("decoded", t))
+			}
+		}
+		return x.ret1(st, scalar(x.freshTerm("decodeErr", sRef))), true
 	}
 	if strings.HasSuffix(key, "internal/hashmap.Map.Get") || strings.HasSuffix(key, "internal/hashmap.Map.Compute") ||
 		strings.HasSuffix(key, "internal/hashmap.Map.Range") || strings.HasSuffix(key, "internal/hashmap.Map.Size") {
@@ -719,6 +733,9 @@ func (x *ctx) mapLookup(st *state, fr *frame, in *ssa.Lookup) val {
 	_ = ks
 	p := x.mapPresent(st, m, k)
 	v := x.ghostGet(st, x.mapV(k.srt, vs), []srtT{sRef, k.srt}, vs, []term{m, k})
+	if vs == sRef {
+		x.noteAllocated(st, v)
+	}
 	res := ite(p.s, v, x.zeroVal(vt).t)
 	if in.CommaOk {
 		return val{agg: true, fields: []val{scalar(res), scalar(p)}}
@@ -772,4 +789,61 @@ func sourceName(v ssa.Value) string {
 		}
 	}
 	return v.Name()
+}
+
+// mapNext models one step of a range over a Go map: either an arbitrary present key that has not been visited
+// yet, or the end of the iteration, at which point every present key has been visited (instantiated at the
+// skolem constants and parameters of the key sort: pointwise rule).
+func (x *ctx) mapNext(st *state, fr *frame, in *ssa.Next) val {
+	rg, ok := in.Iter.(*ssa.Range)
+	if !ok || in.IsString {
+		x.fail("range over string outside the supported subset in %s", fr.fn)
+	}
+	mt, isMap := rg.X.Type().Underlying().(*types.Map)
+	if !isMap {
+		x.fail("range over non-map in %s", fr.fn)
+	}
+	m := x.get(fr, st, in.Iter).t
+	ks, vs, vt := x.mapSorts(rg.X.Type())
+	_ = mt
+	okT := x.freshTerm("next_ok", sBool)
+	k := x.freshTerm("next_key", ks)
+	visited := func(kk term) term {
+		return x.ghostGet(st, "ghost_visited", []srtT{ks}, sBool, []term{kk})
+	}
+	p := x.mapPresent(st, m, k)
+	st.define(implies(okT.s, and(p.s, not(visited(k).s))))
+	// end of iteration: all present keys visited (instantiated pointwise)
+	inst := map[string]bool{}
+	instAt := func(t term) {
+		if t.s == "" || t.srt.name != ks.name || inst[t.s] {
+			return
+		}
+		inst[t.s] = true
+		pp := x.mapPresent(st, m, t)
+		st.define(implies(not(okT.s), implies(pp.s, visited(t).s)))
+	}
+	for _, v := range x.skolem {
+		instAt(v.t)
+	}
+	for _, v := range x.params {
+		instAt(v.t)
+	}
+	v := x.ghostGet(st, x.mapV(ks, vs), []srtT{sRef, ks}, vs, []term{m, k})
+	if vs == sRef {
+		x.noteAllocated(st, v)
+	}
+	if pt, ok := mt.Elem().Underlying().(*types.Pointer); ok && structName(pt.Elem()) == "call" {
+		// in-flight call maps are keyed by the key stored in the call (same well-formedness as the call table)
+		x.assumed["call maps: an entry stored under k is a call whose key is k (established where the maps are built)"] = true
+		st.define(implies(and(okT.s, not(eq(v, null))), eq(x.readLeafHeap(st, &loc{base: v}, "call.key", ks), k)))
+	}
+	// mark visited (only meaningful when ok)
+	cur := x.ghostArr(st, "ghost_visited", x.hinfo["G:visited"])
+	n := x.freshName("G_visited")
+	x.declare(n, fmt.Sprintf("(Array %s Bool)", ks.name))
+	st.define(fmt.Sprintf("(= %s (ite %s (store %s %s true) %s))", n, okT.s, cur, k.s, cur))
+	st.heap["G:visited"] = n
+	_ = vt
+	return val{agg: true, fields: []val{scalar(okT), scalar(k), scalar(v)}}
 }
